@@ -629,12 +629,13 @@ func hugeSizes() []int {
 	for k := 22; k <= top; k++ {
 		sizes = append(sizes, 1<<k-1, 1<<k, 1<<k+1, 1<<k+1<<(k-1)+777)
 	}
+	sizes = append(sizes, 1<<27+1) // one request just beyond 128 MiB
 	return sizes
 }
 
 // TestC04_Huge: single requests of 4..64 MiB (thorough: ..100 MiB) behind a small consumed prefix.
 func TestC04_Huge(t *testing.T) {
-	rec := evid.New("C04", "c04_huge", "enumeration: histories {Next p; Next n} / {Next p; Peek n; Next n} / {Skip p; ReadBinary n} / {Next p; Release; Next n} for p in {0, 1000} and n in {2^k-1, 2^k, 2^k+1, 2^k+2^(k-1)+777 : k = 22..25 (thorough: ..26)}, over an io.Reader delivering 1 MiB chunks (and one with data+EOF); run one at a time; distinct by construction")
+	rec := evid.New("C04", "c04_huge", "enumeration: histories {Next p; Next n} / {Next p; Peek n; Next n} / {Skip p; ReadBinary n} / {Next p; Release; Next n} for p in {0, 1000} and n in {2^k-1, 2^k, 2^k+1, 2^k+2^(k-1)+777 : k = 22..25 (thorough: ..26)} and n = 2^27+1, over an io.Reader delivering 1 MiB chunks (and one with data+EOF); run one at a time; distinct by construction")
 	defer rec.Flush()
 	bt := evid.NewBatch()
 	shard, nshards := evid.Shard()
